@@ -53,7 +53,7 @@ CHECKS = {
          "Exploration of schedules: writer/reader sessions with injected sleeps between client-boundary steps, in-process and cross-process; verdict from recorded events (interval overlap, lost updates, torn reads, porcupine on an integer-register model) and from non-blocking flock probes with GC disabled after every failure mode of Open/Create.",
          "Only schedules actually produced are covered; contention is measured and required.", "2/C13"),
  "C16": ("fault-injection product over the real binary with an exit-code / effect oracle",
-         "Fault enumeration at the process boundary (thorough tier = the whole product, quick tier = every (subcommand, fault) and (subcommand, archive selection) pair): subcommand x archive selection x window x environment fault (unopenable/unwritable/full text-out, missing/garbage/truncated source, read-only or impossible destination, layout mismatch, missing destination) x text-out mode; no panic text, no abnormal termination, success only with observable work, every fault reported by a non-zero exit.",
+         "Fault enumeration at the process boundary (thorough tier = the whole product, quick tier = every (subcommand, fault) and (subcommand, archive selection) pair): subcommand x archive selection x window x environment fault (unopenable/unwritable/full text-out, missing/garbage/truncated source, read-only or impossible destination, layout mismatch (also of a destination the command creates), missing destination, page writes failing with ENOSPC, a server source whose pattern matches nothing, an item pattern matching only non-directories, a header naming an unstorable method, an archive count beyond a page; plus the fault-free columns: 70-110 slow sources, glob copy over many files, never-written sources, coarser-equal/finer-differs destination) x text-out mode; no panic text, no abnormal termination, success only with observable work, every fault reported by a non-zero exit.",
          "Runs as root and drops the child to uid 65534 for permission faults.", "2/C16"),
  "C17": ("Go race detector in harness, CLI and server processes + concurrent-vs-sequential result equality",
          "Exploration of schedules under the race detector: many goroutines on one cold handle, the sum read path with forced out-of-order completion, the -race server under 8-64 parallel clients over all endpoints; every concurrent result compared bit-exactly with the same request executed alone; every race report is a violation.",
@@ -111,10 +111,10 @@ def main():
             "name": "vcheck",
             "path": "harness/cmd/vcheck (Go module verifharness, replace github.com/hnakamur/whispertool => /repo)",
             "serves_properties": sorted(CHECKS.keys()),
-            "kind_free_text": "runtime monitoring driver: parent plans cases from (VERIF_SEED, index), worker processes execute the real code under generated workloads, monitors/oracles in harness/model and harness/props decide; race detector build for C13/C17",
+            "kind_free_text": "runtime monitoring driver: parent plans cases from (VERIF_SEED, index), worker processes execute the real code under generated workloads, monitors/oracles in harness/model and harness/props decide; race detector build of the harness workers and of the CLI for C13/C17, of the CLI only for a sample of C18's view runs",
         }],
         "checks": checks,
-        "notes": "Technique family: runtime monitoring and sanitizers. Exit codes: 0 held on everything explored, 1 + VIOLATION line, 3 + INCONCLUSIVE line when a coverage obligation was not met. Known findings: known_findings.json (all entries are 'fixed'; nothing is suppressed). See DESIGN.md.",
+        "notes": "Technique family: runtime monitoring and sanitizers. Exit codes: 0 held on everything explored, 1 + VIOLATION line, 3 + INCONCLUSIVE line when a coverage obligation was not met. Known findings: known_findings.json - 22 'fixed' entries (repaired by fix: commits in /repo; they suppress nothing) and 3 'known' entries for C16 (copy / sum-copy / generate exit 0 when every page write to the destination fails with ENOSPC: the filebuffer dependency swallows write errors; printed as KNOWN-FINDING lines, exit 0). See DESIGN.md sections 4 and 5.",
         "not_applicable": na,
     }
     json.dump(m, open(os.path.join(HERE, "MANIFEST.json"), "w"), indent=1)
